@@ -16,9 +16,12 @@ def est_files(tier):
             files.append(["--mode", "trials", "--family", fam, "--T", 400, "--lgks", "8,10,12", "--mults", MULTS])
         for fam in ("hll-union", "hll8", "cpc-union"):
             files.append(["--mode", "trials", "--family", fam, "--T", 2500, "--lgks", "13", "--mults", "2,16"])
+        # smallest sizes: a bias of order 1/k is a sizeable fraction of the RSE only here
+        for fam in ("hll4", "hll8", "hll-union", "cpc", "cpc-union"):
+            files.append(["--mode", "trials", "--family", fam, "--T", 2500, "--lgks", "4,5,6", "--mults", "0.5,2,8,16,64"])
     else:
         for fam in FAMS:
-            for lgk in (7, 9, 10, 11, 12, 13):
+            for lgk in ((4, 5, 7, 9, 10, 11, 12, 13) if not fam.startswith("theta") else (5, 7, 9, 10, 11, 12, 13)):
                 files.append(["--mode", "trials", "--family", fam, "--T", 2500, "--lgks", str(lgk), "--mults", MULTS if lgk < 13 else "0.5,2,8,16,64,80"])
     return files
 
